@@ -1028,6 +1028,7 @@ func AllProgs() []Prog {
 	ps = append(ps, CombinatorProgs()...)
 	ps = append(ps, NestedProgs()...)
 	ps = append(ps, MachineProgs()...)
+	ps = append(ps, StabilityProgs()...)
 	return ps
 }
 
